@@ -17,6 +17,8 @@
 /* gq (ghost grid-point index) and gj (ghost absolute interval index) are declared in bs_rt_post.h */
 size_t gq;
 size_t gj;
+size_t gq2;  /* a second ghost grid-point index */
+size_t gg;   /* ghost heap id (frame clauses of the allocating functions) */
 size_t gk;   /* ghost coefficient index  */
 size_t gr;   /* ghost relative (vector) index */
 size_t bs_veq_w; /* witness position of a difference, assigned by the vector comparison shims */
@@ -290,7 +292,7 @@ T __CPROVER_uninterpreted_int2_5_5(T, T, T, T, T, T, T, T, T, T, T);
  *      point, consecutive distinct knots are neighbouring grid points (established by the constructor from the contract
  *      of std::unique, assumed as instances by the member functions) */
 #define KN(gen, l) ((gen)._knots.d[l])
-struct bs_pos_t { size_t p[BS_CAP]; } BS_POSS;
+/* (struct bs_pos_t BS_POSS is declared in bs_rt_post.h, the std::unique shim uses it) */
 #define BS_POS(l) (BS_POSS.p[l])
 #define GENINV(gen, l) (!((l) < BS_CAP && (l) + 1 < (gen)._knots.n) || \
   (KN(gen, l) <= KN(gen, (l) + 1) && BS_POS(l) < GN((gen)._grid) && GRID((gen)._grid, BS_POS(l)) == KN(gen, l) && \
